@@ -91,6 +91,7 @@ def gen_case(run_seed: int, index: int, tier: str) -> dict:
         "data_seed": rng.randrange(1 << 31),
         "warmup": rng.choice([None, None, [5], [2, 3], [2, 2, 4]]),
         "noncontig": rng.random() < 0.2,
+        "warmup_n": rng.choice([1, 1, 2, 4]),
     }
     if rng.random() < 0.15:  # the edges of the stated ranges
         case["snr_db"], case["snr_db2"] = rng.choice([(-20.0, 40.0), (40.0, -20.0), (40.0, 39.0), (-20.0, -19.0)])
@@ -264,9 +265,10 @@ def execute(case: dict) -> RunResult:
         if cplx:
             w = torch.complex(w, w.flip(-1))
         torch.manual_seed(case["torch_seed"] ^ 0x4321)
-        run1(w)
-        run2(w)
-        res.faults["history.earlier_call_on_same_object"] += 1
+        for _ in range(case.get("warmup_n", 1)):
+            run1(w)
+            run2(w)
+            res.faults["history.earlier_call_on_same_object"] += 1
     torch.manual_seed(case["torch_seed"])
     y1, s1 = run1(x)
     torch.manual_seed(case["torch_seed"])
